@@ -180,6 +180,10 @@ HANDLERS = [(b"/h", b"HANDLER-h", 2), (b"/a/a.html", b"HANDLER-a-a-html", 0), (b
             (b"/aa.html", b"HANDLER-aa-html", 2)]
 METHODS = [b"GET", b"HEAD", b"POST", b"OPTIONS"]
 INTERNAL_STATUS = (403, 204)
+ALIAS = "alias"   # pseudo method of a history step (ALIAS, from, to): copy the response-cache entry under `from` to the key `to`
+UNSAFE_TARGETS = [b"/../secret.txt", b"/./cors_fail", b"/./cors_options", b"//etc/passwd", b"/%2e%2e/secret.txt", b"/a/../index.html", b"/../",
+                  b"/..%2fsecret.txt", b"/%2e/cors_fail", b"/a/./a", b"/../secret.", b"/.%2e/index.html", b"//", b"/%2f", b"/../../outside.txt",
+                  b"/%2e%2e%2f", b"/./", b"/sub/../../secret.html"]
 CORS_DENIED = b"CORS request denied"
 
 
@@ -212,8 +216,9 @@ def pipe_cfg(default_ext, cache, fcache, public):
 
 
 def pipe_case(cfgkey, reqs, kind):
-    return Case("pathsanpipe.run", xl(pipe_cfg(*cfgkey), xlist([xl(xb(m), xb(t), xn(k)) for m, t, k in reqs])), "pathsanpipe.spec",
-                {"kind": kind, "requests": len(reqs), "cfg": cfgkey})
+    ops = [xl(xn(1), xb(t), xb(k)) if m is ALIAS else xl(xb(m), xb(t), xn(k)) for m, t, k in reqs]
+    return Case("pathsanpipe.run", xl(pipe_cfg(*cfgkey), xlist(ops)), "pathsanpipe.spec",
+                {"kind": kind, "requests": sum(1 for r in reqs if r[0] is not ALIAS), "cfg": cfgkey})
 
 
 DOTDOT = [b"..", b"%2e%2e", b"%2E%2e", b".%2e", b"%2e.", b"%252e%252e", b"%252E%252E", b".%252e", b"%25252e%25252e", b"%c0%ae%c0%ae", b"..%00", b"...", b"."]
@@ -284,6 +289,32 @@ def history(rng, n):
     return reqs
 
 
+def primed_key(t, default_ext):
+    p = t.split(b"#")[0].split(b"?")[0]
+    if default_ext and p.endswith(b"."):
+        return p + b"html"
+    if default_ext and p.endswith(b"/"):
+        return p + b"index.html"
+    return p
+
+
+def poisoned_history(rng, default_ext):
+    """cache entries of harmless responses are copied to the keys unsafe requests (and the CORS overrides) look up"""
+    reqs = []
+    sources = [(b"/h", b"/h"), (b"/index.html", b"/index.html"), (b"/aa", b"/aa"), (b"/nonexistent", b"/nonexistent")]
+    if default_ext:
+        sources += [(b"/", b"/index.html"), (b"/a/", b"/a/index.html"), (b"/secret.", b"/secret.html")]
+    for _ in range(rng.randrange(3, 7)):
+        t, key = rng.choice(sources)
+        reqs.append((rng.choice([b"GET", b"GET", b"HEAD"]), t, 0))
+        u = rng.choice(UNSAFE_TARGETS) if rng.random() < 0.7 else pipe_target(rng)
+        to = rng.choice([primed_key(u, default_ext), primed_key(u, default_ext), u, b"/./cors_fail", b"/./cors_options", b"/zz"])
+        reqs.append((ALIAS, key, to))
+        for _ in range(rng.randrange(1, 4)):
+            reqs.append((rng.choice([b"GET", b"GET", b"HEAD", b"POST", b"OPTIONS"]), rng.choice([u, u, to, b"/zz"]), rng.choice([0, 0, 0, 2, 3, 4])))
+    return reqs
+
+
 def chunks(l, n):
     return [l[i:i + n] for i in range(0, len(l), n)]
 
@@ -325,6 +356,10 @@ def pipe_cases(rng, tier):
     # 6. mixed histories: repeated targets, methods, Origin kinds, all configurations
     for _ in range(n):
         cases.append(pipe_case(rand_cfgkey(rng), history(rng, rng.randrange(10, 31)), "pipe-history"))
+    # 7. arbitrary cache content: entries copied to the keys of unsafe requests / of the CORS overrides
+    for _ in range(n):
+        de = rng.random() < 0.6
+        cases.append(pipe_case((de, True, rng.random() < 0.5, rng.choice(PUBLIC_DIRS)), poisoned_history(rng, de), "pipe-poisoned-cache"))
     return cases
 
 
@@ -351,6 +386,8 @@ def pipe_spec_ok(c, i, s):
         c.meta["why"] = "malformed pipeline output"
         return False
     for idx, ((r, o), f) in enumerate(zip(rows, sv[1])):
+        if f == ("N", 97):
+            continue
         if f == ("N", 96):
             if o != ("L", [("N", 96)]):
                 c.meta["why"] = "a target refused by the specification's URI grammar was served: " + _req_text(c, idx, r)
@@ -380,7 +417,7 @@ def extra_oracle(c, i):
         return "malformed pipeline output " + i[:100]
     default_ext = c.x[1][0][1][0][1] == 1
     for idx, (r, o) in enumerate(rows):
-        if o[0] != "L" or len(o[1]) != 3:
+        if o[0] != "L" or len(o[1]) != 3 or r[1][0][0] == "N":
             continue
         status, body, log = o[1][0][1], o[1][1][1], o[1][2][1]
         m, k = r[1][0][1], r[1][2][1]
